@@ -342,6 +342,30 @@ theorem C13_nested_flat_is_block (S' : Tag → Prop) (G d : Tag) (ts : List Tag)
     NestedOK S' (flatTmpl (d :: ts)) (countTV G es.length :: es.flatMap serEntry) :=
   nestedOK_flat S' G d ts hS' es hes hn
 
+/-- WRITE THEN READ WITH NESTED GROUPS, ANY DEPTH (compositional).  Entries built by ARBITRARY setter calls — `Set…` for element
+    fields, `SetGroup` for nested groups, any order, overwrites allowed — on a template of distinct tags with an element
+    delimiter that every entry sets; `blockData` records, per setter call, the TagValues it contributes (for `SetGroup` what
+    the nested group's own `Write` returns), and the nested groups' wire forms read back with their own templates
+    (`BlockOK` — by `C13_nested_group_is_block` / `C13_nested_flat_is_block`, i.e. by this very theorem one level down).
+    Then `Write` emits, per entry, the members in template order with the TagValues of their LATEST setter call, and `Read`
+    of that followed by `rest` returns one entry per entry written in which every tag that was set maps to a range starting
+    with exactly those TagValues — "the same number of entries with the same fields and values in the same order,
+    including nested groups". -/
+theorem C13_roundtrip_nested (S : Tag → Prop) (G d : Tag) (tmplr : List Item) (hts : (tmplTags (.elem d :: tmplr)).Nodup)
+    (rest : List TagValue)
+    (hS : ∀ t, t ∈ tmplTags (.elem d :: tmplr) → S t) (hSr : ∀ f r, rest = f :: r → S f.tag)
+    (hrest : ∀ f r, rest = f :: r → findItem (.elem d :: tmplr) f.tag = none)
+    (es : List (List GFld)) (bss : List (List (Tag × List TagValue)))
+    (hdata : es.map (fun e => e.map blockData) = bss.map (fun bs => bs.map some))
+    (hb : ∀ bs ∈ bss, (∀ p ∈ bs, p.1 ∈ tmplTags (.elem d :: tmplr) ∧ BlockOK S (.elem d :: tmplr) ⟨p.1, p.2⟩) ∧
+      ∃ tv, latestB bs d = some [tv] ∧ tv.tag = d)
+    (hn : es.length < 9223372036854775808) :
+    ∃ tvs gs, writeGroup G (.elem d :: tmplr) es = .ok tvs ∧ getGroup (.elem d :: tmplr) (tvs ++ rest) = .ok gs ∧
+      gs.length = es.length ∧
+      ∀ (i : Nat) (bs : List (Tag × List TagValue)), bss[i]? = some bs → ∃ g : GEntry, gs[i]? = some g ∧
+        ∀ t tvs', latestB bs t = some tvs' → ∃ tail, alFind g.lookup t = some (tvs' ++ tail) :=
+  roundtrip_nested S G d tmplr hts rest hS hSr hrest es bss hdata hb hn
+
 /-- D6, AFTER THE FIX.  With the dictionary, inside a nested group `N` of a group `G` (tag stack `[G, N]`): a body field that is a
     member of neither `N` nor `G` ends the group — the group is added to the body under its tag and the field itself becomes
     a body field ("the fields following the group are still found"); a field that is a member of the parent `G` continues
@@ -401,7 +425,8 @@ example :
    "same number of entries"                                  C13_read_count, C13_write_starts_with_count, C13_read_zero
    with the dictionary that defines the group (no nested groups) C13_dict_flat_group_mid, C13_dict_flat_group_last (parseGroup + GetGroup through the dictionary template)
    the whole trip build → parse (no dictionary) → GetGroup       C13_roundtrip_nodict_flat (templates without nesting; any message around the group)
-   "including nested groups" (Read, any depth, compositional)    C13_read_nested, C13_nested_group_is_block, C13_nested_flat_is_block
+   "including nested groups" (any depth, compositional)          C13_roundtrip_nested (Write;Read), C13_read_nested, C13_nested_group_is_block,
+                                                                 C13_nested_flat_is_block
    "same fields and values in the same order"                 C13_roundtrip_flat (Write then Read, templates without nesting, any setter calls),
                                                              C13_read_inverts_wire_flat (whole Read, templates without nesting);
                                                              C13_read_member, C13_read_delimiter (one step each, any template); nested: C13_roundtrip_nodict_full
